@@ -435,6 +435,14 @@ class Interp:
             r = self.on_call(self, name, f, args, kwargs)
             if r is not NotImplemented:
                 return r
+        if len(args) >= 2 and isinstance(args[1], K) and \
+                isinstance(args[0], (RegexV, K)):
+            # a constant pattern applied to a constant subject is computed
+            from . import rxmodel
+            if name in rxmodel.MODES:
+                r = rxmodel.on_call(self, name, f, args, kwargs)
+                if r is not NotImplemented:
+                    return r
         targs = tuple(self.termify(a) for a in args) + tuple(
             T('kw', k, self.termify(v)) for k, v in sorted(kwargs.items()))
         self.effect('call', name, targs)
